@@ -151,10 +151,23 @@ def enum_container(tier):
 STEPS = [np.pi, 1.5 * np.pi, 1.9 * np.pi]
 
 
+def negative_starts(t):
+    """Monotone cycles in which every other cycle begins a little *below* zero (an unwrapped-looking start): such a segment
+    does not start within the tolerance above 0 and must be rejected. No sample exceeds 2pi, so nothing is re-wrapped."""
+    p, lens = t
+    p = p.copy()
+    starts = np.r_[0, np.cumsum(lens)[:-1]]
+    for i, s0 in enumerate(starts):
+        if i % 2 == 1:
+            p[s0] = -0.02 - 0.01 * i
+    return p
+
+
 @st.composite
 def mask_case(draw):
     p = draw(st.one_of(gens.synth_phase(max_n=300), gens.short_phase(40, 2),
-                       gens.monotone_cycles_phase(2, 8, 3, 30).map(lambda t: t[0])))
+                       gens.monotone_cycles_phase(2, 8, 3, 30).map(lambda t: t[0]),
+                       gens.monotone_cycles_phase(2, 8, 3, 30).map(negative_starts)))
     n = p.shape[0]
     kind = draw(st.sampled_from(['none', 'random', 'block', 'random']))
     case = {'p': p, 'edge': draw(st.sampled_from(EDGES)), 'step': draw(st.sampled_from(STEPS))}
@@ -181,7 +194,7 @@ def seg_case(draw):
     else:
         k = draw(st.integers(0, 2**32 - 1))
         rng = np.random.default_rng(k)
-        lo = draw(st.sampled_from([0.01, edge * 0.5, edge * 0.99, edge * 1.01, edge * 2]))
+        lo = draw(st.sampled_from([0.01, edge * 0.5, edge * 0.99, edge * 1.01, edge * 2, -0.01, -edge * 0.5, -edge * 1.5]))
         hi = 2 * np.pi - draw(st.sampled_from([0.01, edge * 0.5, edge * 0.99, edge * 1.01, edge * 2]))
         seg = np.sort(np.r_[lo, hi, lo + (hi - lo) * rng.random(max(n - 2, 0))])[:max(n, 1)]
         if n >= 2:
